@@ -22,9 +22,12 @@ VARIABLES dbs,       \* created databases (lower case)
           cur,       \* selected database, "" if none
           content,   \* db -> [has |-> table exists, rows |-> sequence of values]
           unsaved,   \* set of dbs with changes not yet flushed
+          ticked,    \* a timer tick happened since the last statement (a tick changes nothing in the promise;
+                     \* the flag makes the state after it a different state, so TLC continues paths through it:
+                     \* a store the code leaked writes its stale header exactly then)
           res        \* outcome of the last step (observation only)
 
-sessVars == <<dbs, cur, content, unsaved, res>>
+sessVars == <<dbs, cur, content, unsaved, ticked, res>>
 
 Lower(n) == CASE n = "A" -> "a" [] n = "B" -> "b" [] OTHER -> n
 NoTable == [has |-> FALSE, rows |-> <<>>]
@@ -32,7 +35,7 @@ R(k, show) == [k |-> k, show |-> show]
 OK == R("ok", {})
 ERR == R("error", {})
 
-SessInit == dbs = {} /\ cur = "" /\ content = <<>> /\ unsaved = {} /\ res = R("init", {})
+SessInit == dbs = {} /\ cur = "" /\ content = <<>> /\ unsaved = {} /\ ticked = FALSE /\ res = R("init", {})
 
 CreateDb(n) ==
   LET d == Lower(n) IN
@@ -68,14 +71,16 @@ Delete(v) ==
        /\ res' = OK /\ UNCHANGED <<dbs, cur>>
 
 \* 100 ms pass: the flusher of every open store runs once
-Tick == /\ unsaved # {} /\ unsaved' = {} /\ res' = R("tick", {}) /\ UNCHANGED <<dbs, cur, content>>
+Tick == /\ ~ticked /\ ticked' = TRUE /\ unsaved' = {} /\ res' = R("tick", {}) /\ UNCHANGED <<dbs, cur, content>>
 
 \* clean shutdown and a new process: nothing selected
 Restart == /\ cur' = "" /\ unsaved' = {} /\ res' = R("restart", {}) /\ UNCHANGED <<dbs, content>>
 
-SessNext == \/ \E n \in Names : CreateDb(n) \/ Use(n)
-            \/ Show \/ CreateTable \/ Tick \/ Restart
-            \/ \E v \in Vals : Insert(v) \/ Delete(v)
+SessNext == \/ Tick
+            \/ /\ ticked' = FALSE
+               /\ \/ \E n \in Names : CreateDb(n) \/ Use(n)
+                  \/ Show \/ CreateTable \/ Restart
+                  \/ \E v \in Vals : Insert(v) \/ Delete(v)
 
 -----------------------------------------------------------------------------
 TypeOK == /\ dbs \subseteq {Lower(n) : n \in Names} /\ cur \in dbs \cup {""}
